@@ -454,6 +454,111 @@ fn family_rmw(seed: u64, mask: u64, rep: &Arc<Report>) {
 }
 
 // ------------------------------------------------------------------------------------------
+// crdel (C07, C14): creation racing deletion of one key - the two indexes of the store are
+// updated by both calls, and at quiescence they must hold the same generations
+
+fn family_crdel(seed: u64, mask: u64, rep: &Arc<Report>) {
+    let mut m = Mask { bits: mask, next: 0 };
+    let mut r = Rng(mix(seed, 0x6600));
+    let store = Arc::new(FeoxStore::builder().hash_bits(2).no_memory_limit().build().unwrap());
+    // one creator walks over fresh keys; deleters spin on the key that comes next until they have
+    // removed it (so a delete lands as soon after the creation as the interleaving allows); an
+    // optional second creator / updater works on the same keys
+    let n_keys = 3 + r.below(3) as usize;
+    let keys: Vec<Vec<u8>> = (0..n_keys).map(|q| vec![b'k', b'0' + q as u8]).collect();
+    let done = Arc::new(AtomicU64::new(0));
+    let mut bodies: Vec<Box<dyn FnOnce() + Send>> = Vec::new();
+    let creators = 1 + r.below(2) as usize;
+    for c in 0..creators {
+        let hows: Vec<u64> = (0..n_keys).map(|_| r.below(4)).collect();
+        if !m.keep() {
+            continue;
+        }
+        let (s, rep2, ks, done2) = (store.clone(), rep.clone(), keys.clone(), done.clone());
+        bodies.push(Box::new(move || {
+            let res = std::panic::catch_unwind(std::panic::AssertUnwindSafe(|| {
+                for (i, k) in ks.iter().enumerate() {
+                    let v = value(b'k', 1 + c as u8, i as u8, 12 + c);
+                    let res = match hows[i] {
+                        0 | 1 => s.insert_if_absent(k, &v).map(|_| ()),
+                        2 => s.insert(k, &v).map(|_| ()),
+                        _ => s.atomic_increment(k, 1 + i as i64).map(|_| ()),
+                    };
+                    match res {
+                        Ok(()) => rep2.count("creations_or_updates", 1),
+                        Err(FeoxError::OlderTimestamp) => rep2.count("refused_older", 1),
+                        Err(FeoxError::InvalidOperation) | Err(FeoxError::InvalidNumericValue) => rep2.count("increment_on_non_counter", 1),
+                        Err(e) => rep2.fail("unexpected-error", format!("creator {c} key {i}: {e:?}")),
+                    }
+                }
+            }));
+            if res.is_err() {
+                rep2.fail("panic", format!("creator {c} panicked"));
+            }
+            done2.fetch_add(1, Ordering::SeqCst);
+        }));
+    }
+    let launched_creators = bodies.len() as u64;
+    for d in 0..1 + r.below(3) as usize {
+        if !m.keep() {
+            continue;
+        }
+        let (s, rep2, ks, done2) = (store.clone(), rep.clone(), keys.clone(), done.clone());
+        bodies.push(Box::new(move || {
+            let res = std::panic::catch_unwind(std::panic::AssertUnwindSafe(|| {
+                for k in ks.iter() {
+                    let mut tries = 0;
+                    loop {
+                        tries += 1;
+                        match s.delete(k) {
+                            Ok(()) => {
+                                rep2.count("deletes", 1);
+                                break;
+                            }
+                            Err(FeoxError::KeyNotFound) => {}
+                            Err(FeoxError::OlderTimestamp) => rep2.count("refused_older", 1),
+                            Err(e) => {
+                                rep2.fail("unexpected-error", format!("deleter {d}: {e:?}"));
+                                break;
+                            }
+                        }
+                        if tries > 300 || done2.load(Ordering::SeqCst) >= launched_creators {
+                            break;
+                        }
+                    }
+                }
+            }));
+            if res.is_err() {
+                rep2.fail("panic", format!("deleter {d} panicked"));
+            }
+        }));
+    }
+    if r.chance(1, 3) && m.keep() {
+        // a reader of both indexes: whatever it sees somebody wrote
+        let (s, rep2) = (store.clone(), rep.clone());
+        bodies.push(Box::new(move || {
+            for _ in 0..3 {
+                if let Ok(rows) = s.range_query(b"k", b"l", 10) {
+                    for (rk, v) in rows {
+                        if !(genuine(&v, b'k') || v.len() == 8) {
+                            rep2.fail("read-not-genuine", format!("range returned {} bytes nobody wrote under {rk:?}", v.len()));
+                        }
+                    }
+                }
+            }
+        }));
+    }
+    spawn_all(bodies);
+    // quiescent: both indexes, both read paths and the accounting tell the same story
+    let by_get: Vec<Vec<u8>> = keys.iter().filter(|k| store.get(k).is_ok()).cloned().collect();
+    let by_range: Vec<Vec<u8>> = store.range_query(&[], &[0xff; 4], 100).map(|rows| rows.into_iter().map(|(k, _)| k).collect()).unwrap_or_default();
+    if by_get != by_range {
+        rep.fail("index-divergence", format!("get finds {by_get:?} but a full range query returns {by_range:?}"));
+    }
+    usage_exact(&store, &keys, rep, "crdel");
+}
+
+// ------------------------------------------------------------------------------------------
 // range (C14): scans against neighbours being created, replaced and deleted
 
 fn family_range(seed: u64, mask: u64, rep: &Arc<Report>) {
@@ -748,6 +853,7 @@ fn main() {
         "limit" => family_limit(seed, mask, rounds, &rep),
         "rmw" => family_rmw(seed, mask, &rep),
         "range" => family_range(seed, mask, &rep),
+        "crdel" => family_crdel(seed, mask, &rep),
         "cache" => family_cache(seed, mask, &rep),
         "ttl" => family_ttl(seed, mask, &rep, &thin),
         other => {
